@@ -2,7 +2,7 @@ import AnyDB.Model.Lazy
 import AnyDB.Model.Wire
 
 /-! Line protocol for the lazy engine (C15):
-`case n kind=<from1|from2|from3|delta|agg>`, `src k v,v,…` (replace source k), `map v,v,…`,
+`case n kind=<from1|from2|from3|delta|chg|agg>`, `src k v,v,…` (replace source k), `map v,v,…`,
 `range a b`, `one i`, `sorted i,i,…` -/
 namespace AnyDB.LazyProto
 open AnyDB Wire Lazy
@@ -31,6 +31,7 @@ def handle (s : St) (line : String) : St × String :=
   | ["len"] =>
     let n := match s.kind with
       | "delta" => (s.srcs.headD []).length
+      | "chg" => (s.srcs.headD []).length
       | "agg" => s.mapping.length
       | _ => lenN s.srcs
     (s, s!"ok {n}")
@@ -38,18 +39,21 @@ def handle (s : St) (line : String) : St × String :=
     let a := a.toNat?.getD 0; let b := b.toNat?.getD 0
     match s.kind with
     | "delta" => (s, match deltaRange (s.srcs.headD []) s.mapping a b with | .ok l => s!"ok {natsStr l}" | .panic => "panic")
+    | "chg" => (s, match chgRange (s.srcs.headD []) s.mapping a b with | .ok l => s!"ok {natsStr l}" | .panic => "panic")
     | "agg" => (s, match aggRange (s.srcs.headD []) s.mapping a b with | .ok l => s!"ok {optsStr l}" | .panic => "panic")
     | _ => (s, s!"ok {natsStr (fromRange s.srcs a b)}")
   | ["one", i] =>
     let i := i.toNat?.getD 0
     match s.kind with
     | "delta" => (s, match deltaOne (s.srcs.headD []) s.mapping i with | .ok v => s!"ok {optStr v}" | .panic => "panic")
+    | "chg" => (s, match chgOne (s.srcs.headD []) s.mapping i with | .ok v => s!"ok {optStr v}" | .panic => "panic")
     | "agg" => (s, match aggOne (s.srcs.headD []) s.mapping i with | some v => s!"ok {optStr v}" | none => "ok none")
     | _ => (s, s!"ok {optStr (fromOne s.srcs i)}")
   | ["sorted", is] =>
     let idx := parseList is
     match s.kind with
     | "delta" => (s, match deltaSorted (s.srcs.headD []) s.mapping idx with | .ok l => s!"ok {natsStr l}" | .panic => "panic")
+    | "chg" => (s, match chgSorted (s.srcs.headD []) s.mapping idx with | .ok l => s!"ok {natsStr l}" | .panic => "panic")
     | "agg" => (s, "unmodelled")
     | _ => (s, s!"ok {natsStr (fromSorted s.srcs idx)}")
   | _ => (s, "bad-op")
